@@ -28,6 +28,9 @@ pub enum PMut {
     /// replace the i-th TLF by one of `nibbles` (9..=12) 4-bit groups whose value is the true
     /// one plus `hi` * 2^32: a reader that drops the bits beyond 32 sees an unchanged field
     WrapTlf(u16, u16, u8),
+    /// replace the i-th TLF by one whose value is the true one plus `k` * 2^`bits` (bits 8, 16 or 24), minimal
+    /// number of groups: a reader that compares or uses a truncated length sees an unchanged field
+    ModTlf(u16, u8, u8),
     /// replace the message end marker of message i
     EndMarker(u16, u8),
     /// damage one checksum byte of message i
@@ -89,6 +92,7 @@ pub fn pmut() -> impl Strategy<Value = PMut> {
         2 => (any::<u16>(), prop_oneof![Just(0x80u8), Just(0x00u8), Just(0x01u8), Just(0xffu8), Just(0x76u8)], prop_oneof![4 => 1u16..20, 2 => 250u16..262, 1 => 20u16..600]).prop_map(|(p, b, l)| PMut::InsertRun(p, b, l)),
         1 => (any::<u16>(), 1u8..5).prop_map(|(i, b)| PMut::TruncateAtMsgEnd(i, b)),
         2 => (any::<u16>(), 1u8..=255).prop_map(|(i, v)| PMut::EndMarker(i, v)),
+        3 => (any::<u16>(), prop_oneof![Just(8u8), Just(16u8), Just(24u8)], 1u8..4).prop_map(|(i, b, k)| PMut::ModTlf(i, b, k)),
         2 => (any::<u16>(), 1u8..=255).prop_map(|(i, v)| PMut::CrcByte(i, v)),
         2 => (any::<u16>(), 0u8..7).prop_map(|(i, v)| PMut::CrcField(i, v)),
     ]
@@ -230,6 +234,31 @@ pub fn apply(bytes: &mut Vec<u8>, w: &Written, m: &PMut) -> String {
                 }
             }
             format!("wrap-tlf:{}", t.ctx)
+        }
+        PMut::ModTlf(i, bits, k) => {
+            if w.tlfs.is_empty() {
+                return "noop".into();
+            }
+            let t = &w.tlfs[idx(*i, w.tlfs.len())];
+            if t.pos + t.n <= bytes.len() && t.ty != crate::refmodel::sml::TY_BOOL {
+                if let Ok(old) = crate::refmodel::sml::read_tlf(&bytes[t.pos..], t.pos) {
+                    // the data length (or element count) the field honestly announces, plus k * 2^bits; for
+                    // primitives the field's own size is part of the value, so iterate to a fixed point
+                    let add = (*k as u64) << *bits;
+                    let mut nn = 1usize;
+                    loop {
+                        let v = if t.ty == TY_LIST { old.len + add } else { old.len + add + nn as u64 };
+                        let need = (64 - v.leading_zeros() as usize + 3) / 4;
+                        if need.max(1) <= nn {
+                            let new = tlf_bytes(t.ty, v, nn);
+                            bytes.splice(t.pos..t.pos + t.n, new);
+                            break;
+                        }
+                        nn += 1;
+                    }
+                }
+            }
+            format!("mod-tlf:{}", t.ctx)
         }
         PMut::EndMarker(i, v) => {
             if w.msgs.is_empty() {
